@@ -76,8 +76,8 @@ func PathExists(q PathQuery) (ssa.Instruction, bool) {
 		stack string
 		c     *ssa.Call
 	}
-	visited := map[vkey]bool{}    // (context, block) entered at index 0
-	returned := map[rkey]bool{}   // (context, call) continued after the call
+	visited := map[vkey]bool{}  // (context, block) entered at index 0
+	returned := map[rkey]bool{} // (context, call) continued after the call
 	var work []state
 	if q.After == nil {
 		work = append(work, state{b: fn.Blocks[0]})
@@ -210,7 +210,9 @@ func PathExists(q PathQuery) (ssa.Instruction, bool) {
 	return nil, false
 }
 
-func ptrKey(c *ssa.Call) string { return c.Name() + "@" + c.Parent().Name() + c.Parent().RelString(nil) }
+func ptrKey(c *ssa.Call) string {
+	return c.Name() + "@" + c.Parent().Name() + c.Parent().RelString(nil)
+}
 
 func instrSet(sites []Site) map[ssa.Instruction]bool {
 	m := map[ssa.Instruction]bool{}
